@@ -39,6 +39,16 @@ _WORDS = ["Living", "Küche", "Büro", "寝室", "Zone", "Bed 1", "A", "", "naï
           "UUU", "UUUU", "U" * 16, "aUUUb UUU", "UU"]
 
 
+def fresh(s):
+    """An equal but not identical (not interned) copy of a string - what an application gets
+    from a config file, a command line or JSON, where source literals are interned."""
+    return (s + "_")[:-1]
+
+
+def _all(rnd):
+    return rnd.choice(["ALL", fresh("ALL"), fresh("ALL")])
+
+
 def name(rnd, max_bytes):
     """A string whose UTF-8 encoding fits max_bytes, cut on a character
     boundary, without NUL."""
@@ -162,9 +172,9 @@ def at4_messages(rnd):
         ("AcErrorInformationRequest", X(err4.AcErrorInformationRequest(rnd.randint(0, 3)))),
         ("AcAbilityMessage", X(ab4.AcAbilityMessage(
             [at4_ability(rnd) for _ in range(rnd.choice([1, 1, 2, 3, 4]))]))),
-        ("AcAbilityRequest", X(ab4.AcAbilityRequest(rnd.choice(["ALL", 0, 1, 3])))),
+        ("AcAbilityRequest", X(ab4.AcAbilityRequest(rnd.choice([_all(rnd), 0, 1, 3])))),
         ("GroupNamesMessage", X(nm4.GroupNamesMessage({g: name(rnd, 8) for g in gnums}))),
-        ("GroupNamesRequest", X(nm4.GroupNamesRequest(rnd.choice(["ALL", 0, 7, 15])))),
+        ("GroupNamesRequest", X(nm4.GroupNamesRequest(rnd.choice([_all(rnd), 0, 7, 15])))),
         ("QuickTimerMessage", X(qt4.QuickTimerMessage(
             ac_number=rnd.randint(0, 3), timer_type=rnd.choice(list(qt4.TimerType)),
             duration=datetime.timedelta(hours=rnd.randint(0, 23), minutes=rnd.randint(0, 59))))),
@@ -255,9 +265,9 @@ def at5_messages(rnd):
         ("AcErrorInformationRequest", X(err5.AcErrorInformationRequest(rnd.randint(0, 15)))),
         ("AcAbilityMessage", X(ab5.AcAbilityMessage(
             [at5_ability(rnd) for _ in range(rnd.choice([1, 1, 2, 3, 4, 8]))]))),
-        ("AcAbilityRequest", X(ab5.AcAbilityRequest(rnd.choice(["ALL", 0, 1, 15])))),
+        ("AcAbilityRequest", X(ab5.AcAbilityRequest(rnd.choice([_all(rnd), 0, 1, 15])))),
         ("ZoneNamesMessage", X(nm5.ZoneNamesMessage({z: name(rnd, 16) for z in znums}))),
-        ("ZoneNamesRequest", X(nm5.ZoneNamesRequest(rnd.choice(["ALL", 0, 7, 15])))),
+        ("ZoneNamesRequest", X(nm5.ZoneNamesRequest(rnd.choice([_all(rnd), 0, 7, 15])))),
         ("QuickTimerMessage", X(qt5.QuickTimerMessage(
             ac_number=rnd.randint(0, 15), timer_type=rnd.choice(list(qt5.TimerType)),
             duration=datetime.timedelta(hours=rnd.randint(0, 23), minutes=rnd.randint(0, 59))))),
